@@ -249,6 +249,9 @@ def _gauss_spec(c, x, mean, Sigma_diag=None, Sigma=None):
         adj = np.array([[Sigma[1, 1], -Sigma[0, 1]], [-Sigma[1, 0], Sigma[0, 0]]], dtype=Sigma.dtype)
         q = d @ adj @ d / det
         return -0.5 * (n * LOG2PI(c) + np.log(det)) - 0.5 * q
+    if not c.sym:                                        # native only: dense reference computation
+        S = np.asarray(Sigma, dtype=float); sign, ld = np.linalg.slogdet(S)
+        return -0.5 * (n * np.log(2 * np.pi) + ld) - 0.5 * float(d @ np.linalg.solve(S, d))
     raise NotImplementedError
 
 
@@ -271,6 +274,9 @@ def gaussian_form(c, param, form, n, sparse_side):
             diag = c.vec('v', n, pos=True)
             import scipy.sparse as sp
             arg = shims.STag(np.diag(diag)) if c.sym else sp.diags(diag, format='csr')
+        elif form == 'dense' and param.startswith('sqrt') and n > 2:
+            diag = None                                  # (native only) symmetric positive definite square root
+            G = c.lower('g', n); arg = G @ G.T + 0.3 * np.eye(n)
         elif form == 'dense' and param.startswith('sqrt'):
             diag = None                                  # symmetric non-singular square root
             a, b, d_ = c.real('ra', pos=True), c.real('rb'), c.real('rd', pos=True)
@@ -297,7 +303,8 @@ def gaussian_form(c, param, form, n, sparse_side):
             else:
                 P = A if param == 'prec' else A.T @ A
                 d = x - mean
-                det = P[0, 0] * P[1, 1] - P[0, 1] * P[1, 0]
+                if n == 2: det = P[0, 0] * P[1, 1] - P[0, 1] * P[1, 0]
+                else: det = float(np.linalg.det(np.asarray(P, dtype=float)))
                 spec = -0.5 * (n * LOG2PI(c) - np.log(det)) - 0.5 * (d @ P @ d)
         g = Gaussian(mean, **{param: arg})
         c.eq('logpdf_is_documented_gaussian', g.logpdf(x), spec)
@@ -342,6 +349,12 @@ def jobs(tier):
                     J.append(Job(f'Gaussian.logpdf:{param}:{form}:sparse_switch={side}:n={n}',
                                  lambda c, p=param, f=form, n=n, s=side: gaussian_form(c, p, f, n, s), lvl, G, timeout=300,
                                  nnum=(40 if lvl == 'B' else None)))
+            if form == 'dense':
+                # 3 and 4 dimensions, both sides of the switch, native only (at n = 2 an eigenvector matrix is symmetric, which hides
+                # a confusion of eigenvector rows and columns)
+                for side in ('below', 'above'):
+                    for n in (3, 4):
+                        J.append(Job(f'Gaussian.logpdf:{param}:dense:sparse_switch={side}:n={n}', lambda c, p=param, n=n, s=side: gaussian_form(c, p, 'dense', n, s), 'B', G, nnum=12 if q else 60))
     for fam in FAMILIES:
         J.append(Job(f'{fam}.history:parameters_reassigned_after_use:n=2', lambda c, fam=fam: family_reassign(c, fam, 2), 'B' if fam == 'Lognormal' else 'Pbox',
                      F(mods[fam], f'{fam}.logpdf') + [f'{D}._distribution:Distribution.logd']))
